@@ -31,6 +31,7 @@ pub fn install_panic_hook() {
                 "<non-string panic>".to_string()
             };
             let quiet = QUIET.with(|q| *q.borrow());
+            let msg = String::from_utf8_lossy(msg.as_bytes()).into_owned();
             LAST_PANIC.with(|p| *p.borrow_mut() = Some(format!("{} at {}", msg, loc)));
             if !quiet {
                 prev(info);
